@@ -417,6 +417,84 @@ func c11Scenarios(tier string) []*Scenario {
 			}
 		}
 	}
+	// a forced shutdown while the running job's pipeline is no longer defined (dropped by a reload): it is a running job
+	// like any other. Judged also at every point at which nothing can run: once the deadline has passed and Shutdown has
+	// not returned, every task still executing belongs to a runner that was told to stop.
+	forcedQuiescent := func(w *World) []Violation {
+		if !w.forcedDone {
+			return nil
+		}
+		for _, e := range w.Log {
+			if e.Kind == EvShutdownRet {
+				return nil
+			}
+		}
+		started := false
+		for _, e := range w.Log {
+			if e.Kind == EvApiCall && strings.HasPrefix(e.Detail, "Shutdown") {
+				started = true
+			}
+		}
+		if !started {
+			return nil
+		}
+		var vs []Violation
+		for _, rs := range w.ParkedRuns() {
+			m := w.Mocks[rs.inst-1]
+			if !m.cancelled {
+				vs = append(vs, Violation{Property: "C11", Rule: "forced-cancels-running", Norm: "forced-shutdown-waits-for-running-job",
+					Msg: fmt.Sprintf("forced shutdown: the deadline has passed, Shutdown has not returned and nothing can run, but task %s of job %d still executes and its runner was never told to stop", rs.task, m.job)})
+			}
+		}
+		return vs
+	}
+	for _, sc := range scs {
+		if sc.Forced && sc.QuiescentCheck == nil {
+			sc.QuiescentCheck = forcedQuiescent
+		}
+	}
+	{
+		with := mkDefs(map[string]PipeCfg{"p": chain, "z": {Conc: 1, QL: -1, Graph: graphOne}})
+		without := mkDefs(map[string]PipeCfg{"z": {Conc: 1, QL: -1, Graph: graphOne}})
+		for _, forced := range []bool{false, true} {
+			forced := forced
+			mode := "graceful"
+			if forced {
+				mode = "forced"
+			}
+			sc := &Scenario{
+				Name:   "shutdown/running-pipeline-dropped-by-reload/" + mode + "/none",
+				Desc:   "job 1 runs; a reload dropped its pipeline; Shutdown",
+				Opts:   func() WorldOpts { return WorldOpts{Defs: []*definitionPipelinesDef{with, without}, WithStore: true} },
+				Prefix: []XEvent{S, {Kind: "R", Def: 1}},
+				Setup: func(w *World) {
+					w.Accepted = 1
+					w.SpawnDriver(Op{Kind: "Shutdown", Forced: forced})
+				},
+				Check: func(w *World, x *Exec) []Violation {
+					f := buildFacts(w.Log, w.dump())
+					vs := monC11(w, f, forced, 0)
+					vs = append(vs, monC04(f)...)
+					return vs
+				},
+				Forced: forced, Bound: intp(1),
+			}
+			if forced {
+				sc.QuiescentCheck = forcedQuiescent
+			}
+			scs = append(scs, sc)
+			if forced {
+				// the same without any clock step: the persist loop (which saves at once and then sleeps 3 s) cannot save
+				// after the reload, so the job is still known to the runner when the shutdown begins. (With clock steps the
+				// save purges the running job of the undefined pipeline first - the recorded known finding - and the forced
+				// shutdown then waits for the task's natural end.)
+				ns := *sc
+				ns.Name = "shutdown/pipeline-dropped-no-save/forced/none"
+				ns.NoTick = true
+				scs = append(scs, &ns)
+			}
+		}
+	}
 	// the persist loop
 	for _, g := range []struct {
 		n string
